@@ -63,6 +63,9 @@ ALPHABETS = {
     'bmp3': '✈€中￿',            # 3-byte
     'astral4': '\U0001F600\U00010348\U0010FFFF',   # 4-byte
     'ctrl': '\x00\x01\n\r\t\x7f',
+    # characters that codecs / normalisers like to treat specially: BOM,
+    # line/paragraph separators, NEL, zero-width, replacement, non-characters
+    'special': '\ufeff\u2028\u2029\x85\u200b\ufffd\ufffe\u0130\u212a',
 }
 _ALPHA_NAMES = sorted(ALPHABETS)
 
@@ -97,6 +100,8 @@ def rshortstr(rnd):
     s = rstr_bytes(rnd, n)
     if rnd.random() < 0.03 and n >= 4:
         s = 'AMQP' + rstr_bytes(rnd, n - 4, 'ascii')
+    elif rnd.random() < 0.04 and n >= 3:
+        s = '\ufeff' + rstr_bytes(rnd, n - 3)       # leading BOM
     return s
 
 
@@ -108,6 +113,8 @@ def rlongstr(rnd, big=False):
         n = rnd.randint(0, 60)
     else:
         n = rnd.choice([4095, 4096, 65535, 65536, 70000])
+    if n >= 3 and rnd.random() < 0.04:
+        return '\ufeff' + rstr_bytes(rnd, n - 3)
     return rstr_bytes(rnd, n)
 
 
@@ -203,11 +210,18 @@ def rdatetime(rnd, secs=None):
             dt = base.astimezone(tz2)
         return dt
     t = time.gmtime(s)
-    if rnd.random() < 0.5:
+    k = rnd.random()
+    if k < 0.4:
         return t
-    return time.struct_time((t.tm_year, t.tm_mon, t.tm_mday, t.tm_hour,
-                             t.tm_min, t.tm_sec, rnd.randint(0, 6),
-                             rnd.randint(1, 366), rnd.choice([-1, 0, 1])))
+    nine = (t.tm_year, t.tm_mon, t.tm_mday, t.tm_hour, t.tm_min, t.tm_sec,
+            rnd.randint(0, 6), rnd.randint(1, 366), rnd.choice([-1, 0, 1]))
+    if k < 0.7:
+        return time.struct_time(nine)
+    # 11-field struct_time as time.localtime() returns it in a non-UTC
+    # process: the wall-clock fields are still what must be read as UTC
+    return time.struct_time(nine + (rnd.choice(['JST', 'EST', 'X']),
+                                    rnd.choice([3600, -18000, 32400,
+                                                19800, 0])))
 
 
 def trim_key(s, maxchars, maxbytes):
